@@ -149,6 +149,54 @@ Proof.
         - rewrite walk_mono; exact NFc. }
       rewrite E. destruct (walk_list _ k) as [ks e]. reflexivity.
 Qed.
+(** ---- the lazy-fallback property ------------------------------------------------------------------------------
+    With the repaired end-tag rule the parser does not look at anything below an xi:fallback, at whatever depth
+    (the model has no ancestor walk at all: it does not descend; the code walks ALL ancestors of an XInclude element
+    and skips it when one of them is an xi:fallback -- the correspondence ties the two). *)
+Lemma top_walk_fallback_untouched : forall F base a k,
+  TWK F NS_XI base (Elem NS_XI s_fallback a k) = ([Elem NS_XI s_fallback a k], []).
+Proof. intros. rewrite top_walk_unfold. reflexivity. Qed.
+
+(** an xi:include that succeeds (no diagnostic at all) does not depend on its xi:fallback *)
+Lemma inc_resolve_unused_fallback : forall hist base a kids kids' fb fb' r,
+  scan_fallback kids None = FS_ok fb -> scan_fallback kids' None = FS_ok fb' ->
+  inc_resolve fs docuri fixb fixn fixc hist base a kids = (r, []) ->
+  inc_resolve fs docuri fixb fixn fixc hist base a kids' = (r, []).
+Proof.
+  intros hist base a kids kids' fb fb' r S1 S2 H. unfold inc_resolve in *. rewrite S1 in H. rewrite S2.
+  destruct (get_attr NS_NONE s_href a) as [href|]; [|discriminate].
+  destruct (get_attr NS_NONE s_xpointer a); [discriminate|].
+  assert (FB : forall e0 (x : inc_result * list err),
+             match fb with
+             | Some (fat, fkids) =>
+               (IR_repl (map (fix_fb_child fixn (negb (path_eqb base (elem_base (elem_base base a) fat))) (get_base_attr a)) fkids) hist,
+                e0 ++ [E_IncludeFailedResourceError])
+             | None => (IR_fail, e0 ++ [E_IncludeFailedResourceError; E_IncludeFailedNoFallback])
+             end = (r, []) -> x = (r, [])).
+  { intros e0 x HF. exfalso. destruct fb as [[? ?]|]; inversion HF as [[A B]]; destruct e0; discriminate. }
+  destruct (str_eqb _ s_xml).
+  - destruct (path_mem _ hist); [eapply FB; exact H|].
+    destruct (path_eqb _ docuri); [eapply FB; exact H|].
+    destruct (fetch fs fixn _ _) as [[?|?|]|]; try (eapply FB; exact H). exact H.
+  - destruct (str_eqb _ s_text); [|discriminate].
+    destruct (negb _); [eapply FB; exact H|].
+    destruct (fetch fs fixn _ _) as [[?|?|]|]; try (eapply FB; exact H). exact H.
+Qed.
+
+(** hence: whatever an unused xi:fallback contains -- failing xi:include elements under ordinary elements, at any
+    depth -- the parser-driven processing of the xi:include gives the same nodes and the same diagnostics *)
+Theorem lazy_fallback : forall F pns base a kids kids' fb fb' nodes h',
+  forallb fb_or_leaf kids = true -> forallb fb_or_leaf kids' = true ->
+  scan_fallback kids None = FS_ok fb -> scan_fallback kids' None = FS_ok fb' ->
+  inc_resolve fs docuri fixb fixn fixc [] base a kids = (IR_repl nodes h', []) ->
+  TWK F pns base (Elem NS_XI s_include a kids) = TWK F pns base (Elem NS_XI s_include a kids').
+Proof.
+  intros F pns base a kids kids' fb fb' nodes h' L1 L2 S1 S2 H.
+  pose proof (inc_resolve_unused_fallback [] base a kids kids' fb fb' _ S1 S2 H) as H'.
+  rewrite !top_walk_unfold. change (is_fallback NS_XI s_include) with false. change (is_include NS_XI s_include) with true.
+  cbn [andb]. rewrite (top_walk_leafkids F (elem_base base a) kids L1), (top_walk_leafkids F (elem_base base a) kids' L2).
+  cbn [fst snd app]. rewrite H, H'. reflexivity.
+Qed.
 End TW.
 
 (** whole documents: XercesDOMParser / DOMLSParser (with the repaired end-tag rule) = XIncludeDOMDocumentProcessor *)
